@@ -221,6 +221,7 @@ def run(pid, tier, seed, replay=None):
     mo_committed = os.path.join(SPEC, "mo", "MO_BQ.tla")
 
     if replay:
+        V.write_evidence = False
         key = json.load(open(replay))
         ex = rerun(key["exec"])
         execs, status = [ex], {}
